@@ -320,8 +320,11 @@ func main() {
 			"seed":        seed,
 			"level":       "proof",
 			"coverage": map[string]any{
-				"obligations":              total,
+				// obligations listed as open known findings are reported apart
+				// (known_findings_reported): they are neither discharged nor claimed
+				"obligations":              total - len(knownReported),
 				"discharged":               discharged,
+				"obligations_generated":    total,
 				"checker_cmd":              strings.Join(os.Args, " "),
 				"trusted_base":             trustedBase(p, assume),
 				"functions_under_contract": fns,
